@@ -28,7 +28,7 @@ class Check(CheckBase):
                    'vflib/refimpl.py decodes the format correctly (cross-checked by C14)']
     case_timeout = 300
     PROPS = ('C07',)
-    MIX = {'snap': 4, 'repeat': 4, 'del': 2, 'clean': 1, 'group': 2}
+    MIX = {'snap': 4, 'repeat': 4, 'del': 2, 'clean': 1, 'group': 2, 'churn': 1}
     AUDITS = {'sets'}
 
     def generate(self):
@@ -46,6 +46,7 @@ class Check(CheckBase):
                 'flavour': 'async' if i % 2 else 'sync',
                 'nops': r.randint(8, 16) if quick else r.randint(8, 40),
                 'concurrent': r.choice([1, 2, 5, 16]),
+                'reuse_repos': i % 2 == 0,
             })
         for i in range(6 if quick else 60):
             r = random.Random(f'C07/{self.seed}/x/{i}')
@@ -82,7 +83,8 @@ class Check(CheckBase):
         graph = hist.gen_graph(r, enc)
         if enc and r.random() < 0.5 and 'independent' not in graph:
             graph.append('independent')
-        world = hist.World(case['seed'], case['settings'], case['flavour'], case['concurrent'], graph)
+        world = hist.World(case['seed'], case['settings'], case['flavour'], case['concurrent'], graph,
+                           reuse_repos=case.get('reuse_repos', False))
 
         async def go():
             await world.setup()
@@ -119,8 +121,15 @@ class Check(CheckBase):
         mx = world.settings['chunking']['max_length']
         data = {'same/a': r.randbytes(7 * mx + 3), 'same/b': bytes(3 * mx), 'same/c': r.randbytes(5)}
         locs = {}
+        # half of the time ONE Repository object is re-unlocked with each key in turn (library use)
+        from .. import rep
+        one_object = rep.new_repo(world.backend('switcher'), world.concurrent) if r.random() < 0.5 else None
         for fam, u in fams.items():
-            rec = await world.snapshot(u, data)
+            if one_object is not None:
+                with rep.capture():
+                    await one_object.unlock(password=world.users[u].password, key=world.users[u].key)
+                world.count('key_switches_on_one_object')
+            rec = await world.snapshot(u, data, repo=one_object)
             ref = world.users[u].ref
             locs[fam] = {ref.chunk_loc(d) for d in rec.digests}
             missing = [l for l in locs[fam] if l not in world.store.objects]
